@@ -104,7 +104,8 @@ func (e *Enum) Values() ([]Value, error) {
 	if err := e.compile(); err != nil {
 		return nil, err
 	}
-	return e.values, nil
+	// A copy: the list belongs to the rule, the caller may change what it gets.
+	return append([]Value(nil), e.values...), nil
 }
 
 func (e *Enum) compile() error {
